@@ -230,6 +230,8 @@ pub fn lock(net: &Net) -> MutexGuard<'_, NetInner> {
 // the transport panics out of the loop and leaves a note the runner turns into a violation.
 
 pub const SPIN_LIMIT: u64 = 3_000_000;
+/// bytes one side may write on one stream before the transport calls it a runaway writer
+pub const SENT_LIMIT: usize = 48 << 20;
 
 thread_local! {
     static SPIN_OPS: std::cell::Cell<u64> = const { std::cell::Cell::new(0) };
@@ -887,6 +889,19 @@ impl<B: Buf> SimSend<B> {
                 }
                 p.sent.extend_from_slice(&c[..take]);
                 let end = p.sent.len();
+                if end > SENT_LIMIT {
+                    // nothing the monitors ask an application to send comes near this: a write
+                    // buffer that never drains (its remaining() does not go down) is being replayed
+                    let d = format!("runaway-write on stream {}: more than {} bytes accepted from one sender", self.id, SENT_LIMIT);
+                    SPIN_HIT.with(|h| {
+                        let mut h = h.borrow_mut();
+                        if h.is_none() {
+                            *h = Some(d.clone());
+                        }
+                    });
+                    drop(guard);
+                    panic!("SIM-SPIN: {}", d);
+                }
                 p.write_log.push((t, end));
                 if bp {
                     p.budget -= take;
